@@ -20,6 +20,7 @@ type Scenario struct {
 	Relay   string       `json:"relay,omitempty"`   // "", "tcp", "udp": publisher → server session → stream
 	Readers []ReaderSpec `json:"readers"`
 	NoModel bool         `json:"no_model,omitempty"` // property oracle only (very long runs)
+	SizeSweep bool       `json:"size_sweep,omitempty"` // write number i has i+1 payload bytes
 }
 
 type ReaderSpec struct {
@@ -107,6 +108,9 @@ func genPackets(sc *Scenario) []pktMeta {
 			p.size = 1 + rng.IntN(200)
 		default:
 			p.size = 1 + rng.IntN(maxp)
+		}
+		if sc.SizeSweep {
+			p.size = 1 + i%maxp
 		}
 		if p.size > maxp {
 			p.size = maxp
